@@ -110,6 +110,11 @@ def enumerated_family():
         Config("M015", "2x1o", "1x1o", "2x0e+1x1e", [(0, 0, 0, "uvu", False, 1), (0, 0, 0, "uvu", False, 1), (0, 0, 1, "uvw", True, 1)]),
         Config("M013", "2x1o", "2x1o", "2x0e+1x1o+2x1e",
                [(0, 0, 0, "uuu", False, 1), (0, 0, 0, "uvu", True, 1), (0, 0, 2, "uuu", True, 1)], irrep_normalization="norm"),
+        # a declared output variance of exactly 0: every path into that output has coefficient 0, the block is identically zero
+        # (output_mask must say 0, the weights of those paths are still counted and sliced) — seeded change C19-7
+        Config("M016", "2x0e+1x1o", "1x0e+1x1o", "2x0e+1x1o+1x1e",
+               [(0, 0, 0, "uvw", True, 1), (1, 0, 1, "uvu", True, 1), (1, 1, 2, "uvw", True, 1), (0, 1, 1, "uvv", True, 1)],
+               out_var=[1.0, 0.0, 2.0]),
     ]
     return fam
 
